@@ -151,7 +151,7 @@ func properties() map[string]*PropertySpec {
 	}
 	ps["C04"] = &PropertySpec{ID: "C04", Level: "other",
 		Instances: func(tier string) []*Instance {
-			return []*Instance{{Harness: "H_C04", Lang: 2, MaxWitnesses: 1}}
+			return []*Instance{{Harness: "H_C04", Lang: 2, MaxWitnesses: 1}, {Harness: "H_C04_split", Lang: 2, MaxWitnesses: 1}}
 		},
 		Bounds:  []string{"m, p: arbitrary opaque strings (no bound on content or length) for the unsat direction"},
 		Outside: []string{"the insides of NFKD and PBKDF2-HMAC-SHA512 (stubs with contracts)", "counterexamples are concretised from a pool of spelled strings"},
@@ -249,6 +249,7 @@ func properties() map[string]*PropertySpec {
 				out = append(out, instLS("H_C13_check", allLangs(), []int64{12}, 1)...)
 			}
 			out = append(out, &Instance{Harness: "H_C13_seed", Lang: 2, MaxWitnesses: 1})
+			out = append(out, &Instance{Harness: "H_C04_split", Lang: 2, MaxWitnesses: 1})
 			seqL := []int64{2, 5}
 			if tier == "thorough" {
 				seqL = allLangs()
